@@ -2509,3 +2509,243 @@ Qed.
 Lemma locked_blocks_stop :
   conc_run true (conc_init conc_three) [CAcquire; CIter; CSplice 0] = None.
 Proof. vm_compute. reflexivity. Qed.
+
+(* ================================================================== Restart against signals and Stops *)
+Definition rinv (m : rst) : Prop :=
+  NoDup (ids (r_live m)) /\
+  NoDup (ids (r_iters m)) /\
+  htrace m = (if r_once m then [EHook HShutdown 0] else []) ++ all_shutdown (r_iters m) /\
+  (r_once m = false -> r_iters m = [] /\ r_hq m = None /\ r_pend m = false) /\
+  (r_pend m = true -> r_iters m = [] /\ r_hq m = None) /\
+  (forall q, r_hq m = Some q -> NoDup (ids (r_iters m ++ q)) /\ r_pend m = false).
+
+Lemma htrace_app_false (tr : list (bool * event)) e :
+  map snd (filter fst (tr ++ [(false, e)])) = map snd (filter fst tr).
+Proof. rewrite filter_app. simpl. now rewrite app_nil_r. Qed.
+
+Lemma htrace_app_true (tr : list (bool * event)) (l : list event) :
+  map snd (filter fst (tr ++ map (pair true) l)) = map snd (filter fst tr) ++ l.
+Proof.
+  rewrite filter_app, map_app. f_equal.
+  induction l as [|a l IH]; simpl; [reflexivity| now rewrite IH].
+Qed.
+
+Lemma has_id_false h l : has_id h l = false -> ~ In h (ids l).
+Proof.
+  unfold has_id, ids. intros H Hin. apply in_map_iff in Hin. destruct Hin as [x [Hx Hin]].
+  rewrite existsb_false_iff in H. specialize (H x Hin). subst h. now rewrite Nat.eqb_refl in H.
+Qed.
+
+Lemma ids_app a b : ids (a ++ b) = ids a ++ ids b.
+Proof. unfold ids. apply map_app. Qed.
+
+Lemma all_shutdown_snoc l x : all_shutdown (l ++ [x]) = all_shutdown l ++ shutdown_cbs x.
+Proof. unfold all_shutdown. rewrite flat_map_app. simpl. now rewrite app_nil_r. Qed.
+
+Lemma nodup_app_l {A} (a b : list A) : NoDup (a ++ b) -> NoDup a.
+Proof.
+  induction a as [|x a IH]; simpl; intros H; [constructor|].
+  inversion H as [|? ? Hn Hd]; subst. constructor; [|now apply IH].
+  intros Hin. apply Hn. apply in_or_app. now left.
+Qed.
+
+Ltac rfin Ho Hp Hq := auto; try (simpl; constructor); try (apply Ho; assumption); try (apply Hp; assumption); try (eapply Hq; eassumption); try discriminate; try congruence.
+
+Lemma rstep_inv m c m' : rinv m -> rstep m c = Some m' -> rinv m'.
+Proof.
+  intros (Hl & Hi & Ht & Ho & Hp & Hq) Hs. unfold htrace in *.
+  destruct c; simpl in Hs.
+  - (* ChR *)
+    destruct (r_prog m) as [|a p]; [discriminate|]. destruct a as [e|ni|i|h].
+    + injection Hs as <-. unfold rinv, htrace; simpl. rewrite htrace_app_false. repeat split; rfin Ho Hp Hq.
+    + destruct (r_lock m || has_id (i_id ni) (r_live m)) eqn:E; [discriminate|].
+      apply Bool.orb_false_iff in E. destruct E as [_ E]. apply has_id_false in E.
+      injection Hs as <-. unfold rinv, htrace; simpl. repeat split; rfin Ho Hp Hq.
+      rewrite ids_app. simpl. now apply nodup_snoc.
+    + injection Hs as <-. unfold rinv, htrace; simpl. repeat split; rfin Ho Hp Hq.
+    + destruct (r_lock m); [discriminate|]. injection Hs as <-. unfold rinv, htrace; simpl.
+      repeat split; rfin Ho Hp Hq. now apply remove_id_nodup.
+  - (* ChSig *)
+    destruct (r_once m) eqn:E.
+    + injection Hs as <-. unfold rinv, htrace. rewrite E. repeat split; rfin Ho Hp Hq.
+    + destruct (Ho eq_refl) as (Hi0 & Hq0 & Hp0).
+      injection Hs as <-. unfold rinv, htrace; simpl.
+      change [(true, EHook HShutdown 0)] with (map (pair true) [EHook HShutdown 0]).
+      rewrite htrace_app_true, Ht, ?E, Hi0. simpl.
+      repeat split; rfin Ho Hp Hq.
+  - (* ChAcq *)
+    destruct (r_pend m && negb (r_lock m)) eqn:E; [|discriminate].
+    apply Bool.andb_true_iff in E. destruct E as [E _]. destruct (Hp E) as (Hi0 & Hq0).
+    injection Hs as <-. unfold rinv, htrace; simpl. rewrite Hi0 in *.
+    repeat split; auto; try discriminate;
+      try (match goal with H : r_once m = false |- _ => destruct (Ho H) as (_ & _ & Hpf); congruence end).
+    all: try (match goal with H : Some _ = Some _ |- _ => injection H as <-; simpl; assumption end).
+  - (* ChIter *)
+    destruct (r_hq m) as [[|x q]|] eqn:E; try discriminate.
+    destruct (Hq _ eq_refl) as (Hnd & Hpf).
+    assert (Hon : r_once m = true).
+    { destruct (r_once m) eqn:E1; [reflexivity|]. destruct (Ho eq_refl) as (_ & Hq0 & _). discriminate. }
+    assert (Hnd1 : NoDup (ids (r_iters m ++ q))).
+    { rewrite ids_app in *. simpl in Hnd. now apply NoDup_remove_1 in Hnd. }
+    assert (Hnd2 : NoDup (ids ((r_iters m ++ [x]) ++ q))) by now rewrite <- app_assoc.
+    assert (Hnd3 : NoDup (ids (r_iters m ++ [x]))).
+    { rewrite ids_app in Hnd2. now apply nodup_app_l in Hnd2. }
+    destruct (existsb (Nat.eqb (i_id x)) (r_unreg m)).
+    + injection Hs as <-. unfold rinv, htrace; simpl. repeat split; auto; try congruence.
+      all: try (match goal with H : Some _ = Some _ |- _ => injection H as <-; assumption end).
+    + injection Hs as <-. unfold rinv, htrace; simpl.
+      rewrite htrace_app_true, Ht, all_shutdown_snoc, Hon, app_assoc.
+      repeat split; auto; try congruence.
+      all: try (match goal with H : Some _ = Some _ |- _ => injection H as <-; assumption end).
+  - (* ChRel *)
+    destruct (r_hq m) as [[|x q]|] eqn:E; try discriminate.
+    destruct (Hq _ eq_refl) as (Hnd & Hpf).
+    assert (Hon : r_once m = true).
+    { destruct (r_once m) eqn:E1; [reflexivity|]. destruct (Ho eq_refl) as (_ & Hq0 & _). congruence. }
+    injection Hs as <-. unfold rinv, htrace; simpl. repeat split; auto; try discriminate; try congruence.
+  - (* ChStop *)
+    destruct (r_lock m); [discriminate|]. injection Hs as <-. unfold rinv, htrace; simpl.
+    repeat split; rfin Ho Hp Hq. now apply remove_id_nodup.
+Qed.
+
+Lemma rinv_init l p : NoDup (ids l) -> rinv (rinit l p).
+Proof.
+  intros H. unfold rinv, rinit, htrace; simpl. repeat split; auto; try constructor; try discriminate.
+Qed.
+
+Lemma rrun_inv cs : forall m m', rinv m -> rrun m cs = Some m' -> rinv m'.
+Proof.
+  induction cs as [|c cs IH]; simpl; intros m m' Hi H.
+  - now injection H as <-.
+  - destruct (rstep m c) as [m1|] eqn:E; [|discriminate]. eapply IH; [|exact H]. eapply rstep_inv; eauto.
+Qed.
+
+(* over ALL schedules of one Restart (any program), any number of signals and any Stops: the
+   handlers together emit one shutdown event and run the shutdown + final-shutdown callbacks of
+   pairwise distinct instances, each exactly once, in order *)
+Lemma race_handlers_once l p cs m :
+  NoDup (ids l) -> rrun (rinit l p) cs = Some m ->
+  NoDup (ids (r_iters m)) /\
+  htrace m = (if r_once m then [EHook HShutdown 0] else []) ++ all_shutdown (r_iters m).
+Proof.
+  intros Hn Hr. destruct (rrun_inv cs _ _ (rinv_init l p Hn) Hr) as (_ & H1 & H2 & _). now split.
+Qed.
+
+Lemma rfilter_true (tr : list (bool * event)) (l : list event) :
+  filter (fun x => negb (fst x)) (tr ++ map (pair true) l) = filter (fun x => negb (fst x)) tr.
+Proof.
+  rewrite filter_app. replace (filter _ (map (pair true) l)) with (@nil (bool * event)); [now rewrite app_nil_r|].
+  induction l as [|a l IH]; simpl; auto.
+Qed.
+
+Lemma rstep_order m c m' : rstep m c = Some m' ->
+  rtrace m' ++ prog_events (r_prog m') = rtrace m ++ prog_events (r_prog m).
+Proof.
+  unfold rtrace. intros Hs. destruct c; simpl in Hs.
+  - destruct (r_prog m) as [|a p]; [discriminate|]. destruct a as [e|ni|i|h].
+    + injection Hs as <-. simpl. rewrite filter_app, map_app. simpl. now rewrite <- app_assoc.
+    + destruct (r_lock m || has_id (i_id ni) (r_live m)); [discriminate|]. now injection Hs as <-.
+    + now injection Hs as <-.
+    + destruct (r_lock m); [discriminate|]. now injection Hs as <-.
+  - destruct (r_once m); injection Hs as <-; [reflexivity|]. simpl.
+    change [(true, EHook HShutdown 0)] with (map (pair true) [EHook HShutdown 0]). now rewrite rfilter_true.
+  - destruct (r_pend m && negb (r_lock m)); [|discriminate]. now injection Hs as <-.
+  - destruct (r_hq m) as [[|x q]|]; try discriminate.
+    destruct (existsb (Nat.eqb (i_id x)) (r_unreg m)); injection Hs as <-; simpl; [reflexivity|].
+    now rewrite rfilter_true.
+  - destruct (r_hq m) as [[|x q]|]; try discriminate. now injection Hs as <-.
+  - destruct (r_lock m); [discriminate|]. now injection Hs as <-.
+Qed.
+
+(* over ALL schedules the Restart thread's own events are a prefix of its program, in program order *)
+Lemma race_program_order l p cs : forall m, rrun (rinit l p) cs = Some m ->
+  rtrace m ++ prog_events (r_prog m) = prog_events p.
+Proof.
+  assert (G : forall cs0 m0 m, rrun m0 cs0 = Some m ->
+              rtrace m ++ prog_events (r_prog m) = rtrace m0 ++ prog_events (r_prog m0)).
+  { induction cs0 as [|c cs0 IH]; simpl; intros m0 m H.
+    - now injection H as <-.
+    - destruct (rstep m0 c) as [m1|] eqn:E; [|discriminate]. rewrite (IH _ _ H). exact (rstep_order _ _ _ E). }
+  intros m H. now rewrite (G _ _ _ H).
+Qed.
+
+Lemma prog_events_app a b : prog_events (a ++ b) = prog_events a ++ prog_events b.
+Proof. unfold prog_events. apply flat_map_app. Qed.
+Lemma prog_events_ev l : prog_events (map AEv l) = l.
+Proof. induction l as [|a l IH]; simpl; [reflexivity| now rewrite IH]. Qed.
+Lemma prog_events_ins i l : prog_events (ins_reg i l) = l.
+Proof.
+  induction l as [|a l IH]; simpl; [reflexivity|].
+  destruct a; simpl; try now rewrite IH.
+  destruct (i0 =? i); simpl; [now rewrite prog_events_ev | now rewrite IH].
+Qed.
+
+(* without a handler step the program is the sequential Restart: same events *)
+Lemma restart_prog_refines o c s :
+  prog_events (restart_prog o c s) = snd (fst (restart_body o c s)).
+Proof.
+  unfold restart_prog, restart_body.
+  destruct (run_stop KRestart (i_id o) (c_restart (i_cfg o))) as [e1 ok1].
+  destruct ok1; simpl.
+  2:{ now rewrite prog_events_app, !prog_events_ev. }
+  destruct (start_plan c (next s) true (i_srv o) (i_id o)) as [[e2 ok2] saved].
+  destruct ok2; simpl.
+  - destruct (stop_inst o (commit (mkInst (next s) (i_root o) c saved) (next_after c (next s)) s)) as [s2 e3].
+    simpl. rewrite prog_events_app, prog_events_ev. simpl. rewrite prog_events_app, prog_events_ins.
+    rewrite prog_events_app, prog_events_ev. simpl. rewrite prog_events_app, prog_events_ev. simpl.
+    repeat rewrite <- app_assoc. simpl. reflexivity.
+  - rewrite prog_events_app, prog_events_ev. simpl. rewrite prog_events_app, prog_events_ins. simpl.
+    rewrite prog_events_ev. repeat rewrite <- app_assoc. reflexivity.
+Qed.
+
+(* the witness: a reload of instance 0 held in the new instance's first OnStartup callback while
+   a signal arrives *)
+Definition race_cfg : config :=
+  mkCfg false false false [] [mkCb 0 false; mkCb 1 false] [] [] [mkCb 0 false] [] [] false.
+Definition race_state : state := final init [OStart race_cfg].
+Definition race_old : inst := mkInst 0 0 race_cfg [].
+Definition race_sched : list rchoice :=
+  repeat ChR 5 ++ [ChSig; ChAcq; ChIter; ChIter; ChRel] ++ repeat ChR 4.
+
+Lemma race_old_shutdown_twice :
+  exists m, rrun (rinit (insts race_state) (restart_prog race_old race_cfg race_state)) race_sched = Some m
+            /\ r_prog m = [] /\ NoDup (ids (insts race_state))
+            /\ count_ev (ECb KShutdown 0 0) (ftrace m) = 2
+            /\ ordered (is_cb KStartup 1) (is_cb KShutdown 1) (ftrace m) = false.
+Proof.
+  eexists. split; [vm_compute; reflexivity|].
+  split; [reflexivity|]. split; [vm_compute; repeat constructor; simpl; tauto|]. split; reflexivity.
+Qed.
+
+Lemma count_ev_app e a b : count_ev e (a ++ b) = count_ev e a + count_ev e b.
+Proof. unfold count_ev. now rewrite filter_app, app_length. Qed.
+
+Lemma count_split e (tr : list (bool * event)) :
+  count_ev e (map snd tr) =
+  count_ev e (map snd (filter fst tr)) + count_ev e (map snd (filter (fun x => negb (fst x)) tr)).
+Proof.
+  induction tr as [|[b x] tr IH]; [reflexivity|].
+  change (map snd ((b, x) :: tr)) with ([x] ++ map snd tr). rewrite count_ev_app, IH.
+  destruct b; simpl.
+  - change (x :: map snd (filter fst tr)) with ([x] ++ map snd (filter fst tr)). rewrite count_ev_app. lia.
+  - change (x :: map snd (filter (fun x0 => negb (fst x0)) tr)) with ([x] ++ map snd (filter (fun x0 => negb (fst x0)) tr)).
+    rewrite count_ev_app. lia.
+Qed.
+
+(* the strongest true form of "at most once" for the WHOLE trace: over all schedules an event
+   occurs at most as often as the handlers' single pass over pairwise distinct instances emits
+   it plus as often as the sequential reload itself does *)
+Lemma race_whole_trace_bound l p cs m :
+  NoDup (ids l) -> rrun (rinit l p) cs = Some m ->
+  NoDup (ids (r_iters m)) /\
+  forall e, count_ev e (ftrace m) <=
+            count_ev e ((if r_once m then [EHook HShutdown 0] else []) ++ all_shutdown (r_iters m))
+            + count_ev e (prog_events p).
+Proof.
+  intros Hn Hr. destruct (race_handlers_once l p cs m Hn Hr) as [H1 H2]. split; [exact H1|].
+  intros e. unfold ftrace. rewrite count_split.
+  change (map snd (filter fst (r_tr m))) with (htrace m).
+  change (map snd (filter (fun x => negb (fst x)) (r_tr m))) with (rtrace m).
+  rewrite H2. pose proof (race_program_order l p cs m Hr) as Hp. rewrite <- Hp.
+  rewrite (count_ev_app e (rtrace m)). lia.
+Qed.
